@@ -36,3 +36,136 @@ impl Condvar {
         Ok(guard)
     }
 }
+
+pub(crate) use loom::thread;
+
+/// Channels with the disconnection semantic of std (loom's own mpsc never reports a hang-up,
+/// and the worker loops of the cluster writer end on hang-up).
+mod chan {
+    use super::{Condvar, Mutex};
+    use std::collections::VecDeque;
+    use std::sync::Arc;
+
+    pub(super) struct State<T> {
+        pub queue: VecDeque<T>,
+        pub senders: usize,
+        pub receivers: usize,
+    }
+
+    pub(super) struct Chan<T> {
+        pub state: Mutex<State<T>>,
+        pub cv: Condvar,
+    }
+
+    pub(super) fn new<T>() -> Arc<Chan<T>> {
+        Arc::new(Chan {
+            state: Mutex::new(State {
+                queue: VecDeque::new(),
+                senders: 1,
+                receivers: 1,
+            }),
+            cv: Condvar::new(),
+        })
+    }
+
+    impl<T> Chan<T> {
+        pub fn send(&self, value: T) -> Result<(), T> {
+            let mut s = self.state.lock().unwrap();
+            if s.receivers == 0 {
+                return Err(value);
+            }
+            s.queue.push_back(value);
+            self.cv.notify_all();
+            Ok(())
+        }
+
+        pub fn recv(&self) -> Result<T, ()> {
+            let mut s = self.state.lock().unwrap();
+            loop {
+                if let Some(v) = s.queue.pop_front() {
+                    return Ok(v);
+                }
+                if s.senders == 0 {
+                    return Err(());
+                }
+                s = self
+                    .cv
+                    .wait_while(s, |s| s.queue.is_empty() && s.senders != 0)
+                    .unwrap();
+            }
+        }
+
+        pub fn add(&self, sender: bool, delta: isize) {
+            let mut s = self.state.lock().unwrap();
+            let counter = if sender {
+                &mut s.senders
+            } else {
+                &mut s.receivers
+            };
+            *counter = (*counter as isize + delta) as usize;
+            self.cv.notify_all();
+        }
+    }
+}
+
+macro_rules! channel_mod {
+    ($name:ident, clone_sender: $cs:tt, clone_receiver: $cr:tt) => {
+        pub(crate) mod $name {
+            use super::chan;
+            use std::sync::Arc;
+
+            pub struct SendError<T>(pub T);
+            impl<T> std::fmt::Debug for SendError<T> {
+                fn fmt(&self, f: &mut std::fmt::Formatter<'_>) -> std::fmt::Result {
+                    f.write_str("SendError { .. }")
+                }
+            }
+            #[derive(Debug)]
+            pub struct RecvError;
+
+            pub struct Sender<T>(Arc<chan::Chan<T>>);
+            pub struct Receiver<T>(Arc<chan::Chan<T>>);
+
+            pub fn channel<T>() -> (Sender<T>, Receiver<T>) {
+                let c = chan::new();
+                (Sender(Arc::clone(&c)), Receiver(c))
+            }
+
+            impl<T> Sender<T> {
+                #[allow(clippy::wrong_self_convention)]
+                pub fn send(&self, value: T) -> Result<(), SendError<T>> {
+                    self.0.send(value).map_err(SendError)
+                }
+            }
+            impl<T> Receiver<T> {
+                pub fn recv(&self) -> Result<T, RecvError> {
+                    self.0.recv().map_err(|_| RecvError)
+                }
+            }
+            impl<T> Drop for Sender<T> {
+                fn drop(&mut self) {
+                    self.0.add(true, -1);
+                }
+            }
+            impl<T> Drop for Receiver<T> {
+                fn drop(&mut self) {
+                    self.0.add(false, -1);
+                }
+            }
+            channel_mod!(@clone $cs, Sender, true);
+            channel_mod!(@clone $cr, Receiver, false);
+        }
+    };
+    (@clone true, $ty:ident, $is_sender:expr) => {
+        impl<T> Clone for $ty<T> {
+            fn clone(&self) -> Self {
+                self.0.add($is_sender, 1);
+                Self(Arc::clone(&self.0))
+            }
+        }
+    };
+    (@clone false, $ty:ident, $is_sender:expr) => {};
+}
+
+channel_mod!(mpsc, clone_sender: true, clone_receiver: false);
+channel_mod!(spmc, clone_sender: false, clone_receiver: true);
